@@ -114,5 +114,5 @@ check("C07",
   "exhaustive exploration of operation histories (decision variables) through the real API on z3-real cells; every result compared by z3 with the same operation on freshly imported modules, earlier results re-read after every step",
   "model_checking",
   "Every history of K operations (build a design, common/group evaluate_new_data on an existing design on one of three frames with disjoint z3 symbols and an unseen level, and for K = 4 configuration changes; initial mode and first build are case parameters) is executed on one live import of formulae. After each step the result must equal, as z3 terms and including slices, labels, term-wise sub-matrices and raised exception type, the same operation performed on freshly imported formulae modules; every earlier design is re-snapshotted and must be unchanged; the caller's frames (cells by identity, dtypes, index, columns) and namespace must be untouched.",
-  "Trusted: z3; stubs in evidence; fresh process-state is realised by re-importing the formulae package (new registries, config, classes) rather than by a new OS process. K = 4 over a pool of 2 (quick) / 4 (thorough) formulas and 3 frames. Two plain-API parts (not solver verdicts): three interpreter processes with different string-hash seeds must agree on 12 formulas; objects of the caller passed by name are compared before / after 7 formulas.",,
+  "Trusted: z3; stubs in evidence; fresh process-state is realised by re-importing the formulae package (new registries, config, classes) rather than by a new OS process. K = 4 over a pool of 2 (quick) / 4 (thorough) formulas and 3 frames. Two plain-API parts (not solver verdicts): three interpreter processes with different string-hash seeds must agree on 12 formulas; objects of the caller passed by name are compared before / after 7 formulas.",
   "DESIGN.md section 4 C07")
